@@ -99,6 +99,26 @@ def check_tables(inst, F, ctx, which):
             if isinstance(r, str):
                 ctx.violation('T4', inst, it['name'], r, kind='unrecognised', construct=GEN['T4']); continue
             runs, offs = r
+            # cross-check of the folder against rustc's own constant evaluation of the same initialiser (a disagreement is a
+            # defect of this machinery, not of /repo)
+            cv = it.get('ctfe')
+            if cv:
+                import re
+                from .fold import ty_range
+                got = []
+                for m in re.finditer(r'(-?\d+)_[iu](?:8|16|32|64|128|size)|([iu](?:8|16|32|64|128|size))::(MIN|MAX)', cv):
+                    if m.group(1) is not None:
+                        got.append(int(m.group(1)))
+                    else:
+                        lo_, hi_ = ty_range(m.group(2), inst.crate.pointer_bits)
+                        got.append(lo_ if m.group(3) == 'MIN' else hi_)
+                mine = []
+                for i, (lo, hi) in enumerate(runs):
+                    mine += [lo, hi] + ([offs[i]] if offs is not None else [])
+                if got != mine:
+                    ctx.error('constant folder disagrees with rustc CTFE on %s of %s: %s vs %s' % (it['name'], inst.id, mine[:9], got[:9]))
+                else:
+                    ctx.ok('fold==ctfe', inst)
             if 'T4' in which:
                 if runs != inst.runs:
                     ctx.violation('T4', inst, it['name'], 'range table %s is not the maximal runs of the declared discriminants %s' % (short(runs), short(inst.runs)), key='%s/T4/runs' % ctx.prop, construct=GEN['T4'])
